@@ -21,8 +21,8 @@ type Delivery struct {
 	Msg     *message.Message
 }
 
-func (d *Delivery) Acked() bool  { return vs.PeekClosed(d.Msg.Acked()) }
-func (d *Delivery) Nacked() bool { return vs.PeekClosed(d.Msg.Nacked()) }
+func (d *Delivery) Acked() bool   { return vs.PeekClosed(d.Msg.Acked()) }
+func (d *Delivery) Nacked() bool  { return vs.PeekClosed(d.Msg.Nacked()) }
 func (d *Delivery) Settled() bool { return d.Acked() || d.Nacked() }
 
 // (No locks inside the scripted endpoints: under the controlled scheduler one goroutine runs at a
@@ -155,7 +155,7 @@ const (
 	PubOK PubOutcome = iota
 	PubErr
 	PubPanic
-	PubErrAfter // the inner publisher accepted the messages, then an error is reported
+	PubErrAfter    // the inner publisher accepted the messages, then an error is reported
 	PubErrCanceled // nothing accepted; the error wraps context.Canceled (e.g. a publisher whose own context ended)
 )
 
